@@ -90,32 +90,6 @@ theorem ctxOK_root (p : PCfg) (hc : contOK p = true) : CtxOK (ctxOf p [rootFrame
 
 /-! ### the hypotheses on a forest -/
 
-/-- after this node, is the pending data of the second pass a doctype's newline? -/
-def nextAfter (after : Bool) : Node → Bool
-  | .tag _ _ => false
-  | .str c s =>
-    match strKind c s with
-    | .text _ => after
-    | .special _ _ nl => nl
-
-/-- a doctype must not stand in a preserve-whitespace context, and the text that follows one must be whitespace -/
-def headOK (p : PCfg) (ctx : Ctx) (after : Bool) : Node → Bool
-  | .tag _ _ => true
-  | .str c s =>
-    match strKind c s with
-    | .text t => !after || t.all (fun c => p.asciiSpaces.contains c)
-    | .special _ _ nl => !nl || !ctx.pres
-
-mutual
-/-- `DoctypeStable`: below this node no doctype is followed by visible text or stands inside `<pre>`/`<textarea>` -/
-def dstableN (p : PCfg) (ctx : Ctx) : Node → Bool
-  | .tag i ks => dstableL p (pushCtx p ctx (fullName i)) false ks
-  | .str _ _ => true
-def dstableL (p : PCfg) (ctx : Ctx) : Bool → List Node → Bool
-  | _, [] => true
-  | after, n :: ns => dstableN p ctx n && headOK p ctx after n && dstableL p ctx (nextAfter after n) ns
-end
-
 mutual
 /-- the attribute normalisation is idempotent at every element of the forest (decidable; proved for all attribute
     lists separately) -/
